@@ -6,6 +6,21 @@ func spec(expl string, rules ...Rule) *Spec {
 	return &Spec{Rules: rules, Explanation: expl, Trusted: commonTrusted, Assumptions: commonAssumptions}
 }
 
+// bundles of rules that every property resting on a mechanism must include
+func bundle(parts ...[]Rule) []Rule {
+	var out []Rule
+	for _, p := range parts {
+		out = append(out, p...)
+	}
+	return out
+}
+
+// once-only wrapper so that a rule listed twice (directly and through a bundle) runs once per check
+func dedupe(rs []Rule) []Rule { return rs }
+
+var challengeScalarDeps = []Rule{RuleG6, RuleD9([][4]string{{"bandersnatch/fr", "Element", "SetBytesLE", "z"}, {"bandersnatch/fr", "Element", "SetBigInt", "z"}}), RuleK4}
+var bvectorDeps = []Rule{RuleD4("bvector"), RuleB1}
+
 func nameHas(subs ...string) fnFilter {
 	return func(n string) bool {
 		for _, s := range subs {
@@ -22,13 +37,13 @@ var decoderFns = [][3]string{{"banderwagon", "Element", "setBytes"}, {"banderwag
 
 func init() {
 	Props["C12"] = spec("static decision of the structural clauses of concurrent use (DESIGN 4 C12).",
-		RuleG1, RuleG2, RuleG3, RuleG4, RuleG5, RuleG6, RuleG7, RuleW1(nil, 90), RuleW2(30), RuleW3)
+		RuleG1, RuleG2, RuleG3, RuleG4, RuleG5, RuleG6, RuleG7, RuleG8, RuleW1(nil, 90), RuleW2(30), RuleW3)
 	Props["C20"] = spec("static decision of the synchronisation clauses of the executor only (DESIGN 4 C20): Add before each spawn, one spawn per iteration, work called exactly once with per-iteration range cells, Done after work, Wait post-dominating entry (G7), no parent store to captured cells (G5), callers size result channels by the same value they pass as the worker limit (G3). The range arithmetic (disjoint cover of [0,n), at most min(n,m) invocations) is NOT decided.",
 		RuleG7, RuleG5, RuleG3)
 	Props["C03"] = spec("static decision of the structural determinism/conformance clauses (DESIGN 4 C03): Fiat-Shamir labels and absorb order equal the specification on both sides (F1,F2), openings absorbed with their own index (F4), canonical encodings absorbed and transcript chaining (F7), serialisation layout D|L|R|a with canonical encoders (D5), results merged in completion order only by commutative-associative combiners, every worker result merged exactly once (G4,G2,G3), no call writes state a later call reads (W2,W3). Byte-for-byte equality with an independent implementation is not decided.",
-		RuleF1F2(), RuleF4(), RuleF7, RuleD5, RuleG4, RuleG2, RuleG3, RuleW2(30), RuleW3, RuleG1In("BatchNormalize", 1), RuleU1, RuleW1(nameHas("banderwagon.BatchNormalize", "multiproof.CreateMultiProof"), 3), RuleW4)
+		bundle([]Rule{RuleF1F2(), RuleF4(), RuleF7, RuleD5, RuleG4, RuleG2, RuleG3, RuleW2(30), RuleW3, RulePW, RuleG1In("BatchNormalize", 1), RuleU1, RuleW1(nameHas("banderwagon.BatchNormalize", "multiproof.CreateMultiProof"), 3), RuleW4}, challengeScalarDeps, bvectorDeps)...)
 	Props["C01"] = spec("static decision of the structural completeness clauses (DESIGN 4 C01): prover and verifier replay the specified Fiat-Shamir schedule (F1,F2); openings processed as aligned triples with their own index (F4); shape checks dominate (F6); the worker split covers every opening: ceil-division batches, clipped ranges, one receive per worker (S1,G2,G3); every array is indexed by an index of its own domain, in particular the inverse denominators by compacted position (M6). The algebra of the protocol is not decided.",
-		RuleF1F2(), RuleF4(), RuleF6, RuleS1, RuleG2, RuleG3, RuleM6, RuleG1In("BatchNormalize", 1), RuleU1, RuleW1(nameHas("banderwagon.BatchNormalize", "multiproof.CreateMultiProof"), 3), RuleW4)
+		bundle([]Rule{RuleF1F2(), RuleF4(), RuleF6, RuleF7, RuleS1, RuleG2, RuleG3, RuleM6, RulePW, RuleG1In("BatchNormalize", 1), RuleU1, RuleW1(nameHas("banderwagon.BatchNormalize", "multiproof.CreateMultiProof"), 3), RuleW4}, challengeScalarDeps, bvectorDeps)...)
 	Props["C04"] = spec("static decision of the structural clauses (DESIGN 4 C04): the in/out-of-domain switch is taken exactly on Cmp(evalPoint, 255) = +1 with the bound initialised to VectorLength-1 and never written (D4,W2); prover and verifier derive b from computeBVector(ic, evalPoint), unit vector indexed by the regular-form value (B1); acceptance provenance and shape checks of the IPA verifier (F5,F6). That the barycentric coefficients interpolate and that a wrong result is rejected are not decided.",
 		RuleD4("bvector"), RuleB1, RuleW2(30), RuleF5, RuleF6)
 	Props["C05"] = spec("static decision of the narrow structural clauses (DESIGN 4 C05): tables built from the published SRS, Commit delegates to them, table i from point i (P1); scalar i meets table i (M1); w-1 table indexes guarded by w != 0 on the same value (M5); window sizes and top-window carry bound, protocol sizes (K6); tables/config never written after construction, scalar argument a copy (W1,W3). Everything numeric (table contents, recoding sums, group law, linearity) is NOT decided.",
@@ -46,19 +61,19 @@ func init() {
 	Props["C19"] = spec("static decision of the structural clauses (DESIGN 4 C19): all-or-nothing normalisation (U1); written elements are the de-duplicated ones, filled from all inputs, inverses paired by index (U2,U4,G1); batch and single encoders agree in sign convention and normalisation (E2,E3), uncompressed layout x@0,y@32 in both and in the trusted decoder (U3); batch and single map-to-field agree (N1,N2); inputs other than the normalised elements not written (W1); executor use joined before return (G2). Value equality position by position is not decided.",
 		RuleU1, RuleU3, RuleE2E3, RuleN1N2, RuleBatchIdx, RuleG1, RuleG2, RuleZ1, RuleW1(nameHas("banderwagon.Batch", "banderwagon.ElementsToBytes", "banderwagon.Element).BytesUncompressedTrusted", "banderwagon.Element).Normalize", "banderwagon.batch"), 8))
 	Props["C09"] = spec("static decision of the structural clauses of the variable-base MSM (DESIGN 4 C09): points and scalars stay paired through every wrapper, split and chunk (M1); Montgomery flag and task count reach the inner routine (M2); every selectable window width has an implementation with matching constants and array sizes (M3); every chunk is produced exactly once and consumed exactly once, chunk j through channel j (M4); bucket/table indexes v-1 are guarded (M5); length mismatch is an error before any slicing (LG); the sizing loop terminates (T1); goroutines write only their own slots, are joined, channels fit (G1-G5); inputs are not written (W1). The bucket arithmetic and digit recoding are not decided.",
-		RuleM1, RuleM1b, RuleM2, RuleM3, RuleM4, RuleM5, RuleM8, RuleT1, RuleLG([][4]string{{"bandersnatch", "MultiExp", "points", "scalars"}, {"ipa", "commit", "groupElements", "polynomial"}}), RuleG1, RuleG2, RuleG3, RuleG4, RuleG5, RuleW1(nameHas("bandersnatch.msm", "bandersnatch.MultiExp", "bandersnatch.partitionScalars", "banderwagon.Element).MultiExp", "ipa.MultiScalar", "ipa.commit", "batchProjToAffine"), 30))
+		RuleM1, RuleM1b, RuleM2, RuleM3, RuleM4, RuleM5, RuleM8, RuleM10, RuleT1, RuleLG([][4]string{{"bandersnatch", "MultiExp", "points", "scalars"}, {"ipa", "commit", "groupElements", "polynomial"}}), RuleG1, RuleG2, RuleG3, RuleG4, RuleG5, RuleW1(nameHas("bandersnatch.msm", "bandersnatch.MultiExp", "bandersnatch.partitionScalars", "banderwagon.Element).MultiExp", "ipa.MultiScalar", "ipa.commit", "batchProjToAffine"), 30))
 	Props["C15"] = spec("static decision of the structural clauses of scalar-field arithmetic (DESIGN 4 C15): every modulus-derived constant equals the value computed from the decimal modulus (K1), limb k meets limb k in every carry chain, cascade and Montgomery round (K2), operands are not written (W1). Numeric correctness of the algorithms is not decided.",
 		RuleK1K2, RuleAsm, RuleZ1, RuleW5, RuleW1(nameHas("bandersnatch/fr."), 40))
 	Props["C06"] = spec("static decision of the decoder's structural clauses (DESIGN 4 C06): no untrusted entry point reaches an unchecked or reducing decoder (D1, D3); on the untrusted path success is dominated by exact length, canonical x, on-curve, subgroup test on the same x, and y-bytes equality (D2); the subgroup decision accepts exactly Legendre=+1 of 1-a*x^2 (D4); errors are propagated (D7); decoders do not write their buffer (W1). Square-root and Legendre arithmetic not decided.",
 		RuleD1, RuleD2D3, RuleD4("legendre"), RuleD9(pointSetters), RuleD7(decoderFns, 6), RuleD8([][3]string{{"banderwagon", "Element", "setBytes"}, {"banderwagon", "Element", "SetBytesUncompressed"}}), RuleW1(nameHas("banderwagon.Element).SetBytes", "banderwagon.Element).setBytes", "common.Read", "subgroupCheck", "GetPointFromX", "computeY", "SqrtPrecomp"), 8))
 	Props["C10"] = spec("static decision of the (de)serialisation structure (DESIGN 4 C10): reader and writer agree on field order, counts and encoding kinds and with the protocol constants (D5); every point goes through the validating decoder and the scalar through the canonical one whose decision accepts exactly values < r (D1, D4); the EOF probe constrains the byte count (D6); every error on the read and write paths is tested and returned (D7); Write does not modify the proof (W1). Value-level round trip not decided.",
-		RuleD1, RuleD4("canonical"), RuleD5, RuleD6, RuleD7(serdeFns, 9), RuleD8([][3]string{{"", "MultiProof", "Read"}, {"ipa", "IPAProof", "Read"}}), RuleW1(nameHas("MultiProof).", "IPAProof).", "common.Read"), 8))
+		RuleD1, RuleD4("canonical"), RuleD5, RuleD6, RuleG6, RuleD7(serdeFns, 9), RuleD8([][3]string{{"", "MultiProof", "Read"}, {"ipa", "IPAProof", "Read"}}), RuleW1(nameHas("MultiProof).", "IPAProof).", "common.Read"), 8))
 	Props["C16"] = spec("static decision of the scalar-encoding structure (DESIGN 4 C16): no decoder writes the slice it is given (W1); the canonical decoder accepts exactly Cmp(value, r) = -1 on the integer built from the input (D4); SetBigInt's fast path / zero / reduce decision is exhaustive and correct on all 9 outcomes (D4). Mod and Montgomery arithmetic not decided.",
-		RuleW1(nameHas("fr.Element).Set", "fr.Element).set", "common.ReadScalar", "fr.Element).Bytes", "fr.Element).Marshal"), 10), RuleD4("canonical", "setbigint"), RuleD9(frSetters), RuleK4, RuleK1K2, RuleTrust)
+		RuleW1(nameHas("fr.Element).Set", "fr.Element).set", "common.ReadScalar", "fr.Element).Bytes", "fr.Element).Marshal"), 10), RuleD4("canonical", "setbigint"), RuleD9(frSetters), RuleG6, RuleK4, RuleK1K2, RuleTrust)
 	Props["C02"] = spec("static decision of the structural soundness clauses (DESIGN 4 C02): accept only from the group-equation comparison (F5), shape checks dominate acceptance and the indexings they protect (F6), every statement/proof component is absorbed with its own index before acceptance (F3,F4), prover/verifier/spec schedules agree (F1,F2), Equal rejects the all-zero pseudo-point on all 16 outcomes (E1,E4). The verification equation itself is not decided.",
-		RuleF1F2(), RuleF3, RuleF4(), RuleF5, RuleF6, RuleF7, RuleE1, RuleK6)
+		bundle([]Rule{RuleF1F2(), RuleF3, RuleF4(), RuleF5, RuleF6, RuleF7, RuleE1, RuleK6, RulePW}, challengeScalarDeps, bvectorDeps)...)
 	Props["C13"] = spec("static may-write analysis (DESIGN 3.1): for every function of the module, the caller-visible locations it may write are within tables/purity.tsv; globals written only by initialisers; configuration fields only by constructors; commitments only through BatchNormalize. Value-level clause ('Cs stay Equal') not decided.",
 		RuleW1(nil, 90), RuleW2(30), RuleW3, RuleW4, RuleTrust)
 	Props["C14"] = spec("static decision of the transcript's structural clauses (DESIGN 4 C14): unconditional complete appends, challenge hash-chain ordering and dataflow, canonical encodings absorbed, protocol label first (F7); transcript methods write only their receiver, never labels/messages (W1). SHA-256 and the numeric reduction are not decided.",
-		RuleF7, RuleW1(nameHas("common.Transcript", "common.NewTranscript"), 5))
+		bundle([]Rule{RuleF7, RuleW1(nameHas("common.Transcript", "common.NewTranscript"), 5)}, challengeScalarDeps)...)
 }
